@@ -53,6 +53,11 @@ func analyseFn(fd *ast.FuncDecl) *fnAnalysis {
 					a.assigns[id.Name] = append(a.assigns[id.Name], &ast.BadExpr{})
 				}
 			}
+		case *ast.RangeStmt:
+			// the key of a range over a slice is an integer index
+			if id, ok := s.Key.(*ast.Ident); ok && id.Name != "_" {
+				a.assigns[id.Name] = append(a.assigns[id.Name], &ast.BasicLit{Kind: token.INT, Value: "0"})
+			}
 		case *ast.IncDecStmt:
 			if id, ok := s.X.(*ast.Ident); ok {
 				a.incs[id.Name] = true
